@@ -11,7 +11,8 @@
    The model is total by construction (structural recursion, fuel = input length / nesting limit);
    C08_fuel_enough says the fuel is never the reason for an answer. *)
 From SV Require Import Base.Prelude Base.Bytes Model.FrameBase Model.FrameTypes Model.FrameResp
-  Model.FrameCustom Model.FrameEnc Proofs.FrameBase_proofs Proofs.FrameTop_proofs Proofs.FrameCustom_proofs Proofs.FrameC08_proofs.
+  Model.FrameCustom Model.FrameEnc Model.FrameChunk Model.FrameValues Proofs.FrameBase_proofs Proofs.FrameTop_proofs
+  Proofs.FrameCustom_proofs Proofs.FrameC08_proofs Proofs.FrameChunk_proofs Proofs.FrameValues_proofs.
 Open Scope N_scope.
 
 (* well-formed response decoded exactly, under every feature combination, whatever follows *)
@@ -65,6 +66,40 @@ Proof. exact decode_depth. Qed.
 Theorem C08_fuel_enough : forall decompress ft v2 cmp stream st,
   fst (decode decompress ft v2 cmp stream) <> OErr st EOutOfFuel.
 Proof. exact (fun d => decode_no_oof parse_custom d parse_custom_noof). Qed.
+
+(* the frame reader gives the same answer however the reader cuts the stream into chunks and however
+   large the buffers it is offered are: header, body and the position of the next frame are those of
+   the all-at-once reader on the concatenation *)
+Theorem C08_chunking : forall offers cs,
+  no_eof cs ->
+  match read_frame_chunked offers cs with
+  | Ok ((h, body), cs') => fst (read_frame (concat cs)) = Ok ((h, body), concat cs')
+  | Err e => fst (read_frame (concat cs)) = Err e
+  end.
+Proof. exact read_frame_chunked_spec. Qed.
+
+(* the tablet routing payload (RawTablet::from_custom_payload): the CQL encoding of
+   (first_token, last_token, [(host uuid, shard)]) decodes to (first + 1, last, replicas) *)
+Theorem C08_tablet_roundtrip : forall first last reps,
+  wf_tablet first last reps ->
+  tablet_payload (enc_tablet first last reps) = Ok ((first + 1)%Z, last, reps).
+Proof. exact tablet_payload_enc. Qed.
+
+(* rows behind cached result metadata (the skip-metadata path): a NO_METADATA Rows body whose rows
+   have one cell per cached column decodes to those rows under the cached column specs *)
+Theorem C08_cached_rows_roundtrip : forall custom ft cid ccount ccols r rest,
+  wf_rows_cached ccols r ->
+  run (deser_rows_full_cached custom ft (cid, ccount, ccols)) (enc_rows r ++ rest) =
+  Ok ((mkRows (rr_hdr r) cid ccols (rr_rows_count r) (rr_rows r), ccount), rest).
+Proof. exact run_deser_rows_full_cached_enc. Qed.
+
+(* typed column values: a cell holding C01's serialisation of a value of the column's type decodes
+   (Option<CqlValue>) to that value, padded as C01_roundtrip says; a null cell to null *)
+Theorem C08_typed_cell_roundtrip : forall t v b,
+  Cql.wf_type (to_ctype t) = true -> Cql.wf_val (to_ctype t) v = true -> Cql.known_class (to_ctype t) v = false ->
+  Cql.ser_value true (to_ctype t) v = Ok b ->
+  typed_cell t (Some b) = Ok (Cql.CVal (Cql.pad (to_ctype t) v)) /\ typed_cell t None = Ok Cql.CNull.
+Proof. exact typed_cell_roundtrip. Qed.
 
 (* ---- non-vacuity ------------------------------------------------------------------------------ *)
 (* a RESULT/Rows frame with tracing and a warning: global table spec, columns
@@ -186,6 +221,76 @@ Example C08_ex_pk_canonical :
   pk_sort (pk_enumerate 0 (pk_wire [(0, 5)])) <> [(0, 5)].
 Proof. repeat split; vm_compute; congruence. Qed.
 
+(* chunking: the example frame followed by a READY frame, delivered byte by byte / header split after
+   8 bytes / in one chunk spanning both frames, with stingy and generous buffers *)
+Definition ex_stream : bytes := encode_frame (fun b => b) ex_ft ex_frame ++ [132; 0; 0; 1; 2; 0; 0; 0; 0].
+Example C08_ex_chunking :
+  (forall x, In x [List.map (fun b => [b]) ex_stream; [firstn 8 ex_stream; skipn 8 ex_stream]; [ex_stream]] ->
+     no_eof x) /\
+  read_frame_chunked [] (List.map (fun b => [b]) ex_stream)
+    = Ok ((d_header ex_frame, enc_body ex_ft ex_frame), List.map (fun b => [b]) [132; 0; 0; 1; 2; 0; 0; 0; 0]) /\
+  read_frame_chunked [3; 1; 100] [firstn 8 ex_stream; skipn 8 ex_stream]
+    = Ok ((d_header ex_frame, enc_body ex_ft ex_frame), [[132; 0; 0; 1; 2; 0; 0; 0; 0]]) /\
+  read_frame_chunked [1000] [ex_stream] = Ok ((d_header ex_frame, enc_body ex_ft ex_frame), [[132; 0; 0; 1; 2; 0; 0; 0; 0]]) /\
+  read_frame_chunked [] [firstn 50 ex_stream] = Err EConnectionClosed /\
+  read_frame_chunked [] [firstn 4 ex_stream; []; skipn 4 ex_stream] = Err EHeaderIo.
+Proof.
+  split; [intros x [<-|[<-|[<-|[]]]]; vm_compute; repeat constructor; discriminate|].
+  repeat split; vm_compute; reflexivity.
+Qed.
+Example C08_ex_tablet :
+  wf_tablet (-5) 1000 [([1; 2; 3; 4; 5; 6; 7; 8; 9; 10; 11; 12; 13; 14; 15; 16], 3)] /\
+  tablet_payload (enc_tablet (-5) 1000 [([1; 2; 3; 4; 5; 6; 7; 8; 9; 10; 11; 12; 13; 14; 15; 16], 3)])
+    = Ok ((-4)%Z, 1000%Z, [([1; 2; 3; 4; 5; 6; 7; 8; 9; 10; 11; 12; 13; 14; 15; 16], 3)]) /\
+  tablet_payload (enc_tablet 7 7 []) = Err TbWrongTokenRange /\
+  tablet_payload (enc_bytes (enc_signed 8 1) ++ enc_bytes (enc_signed 8 2) ++
+                  enc_bytes (enc_int 1 ++ enc_bytes (enc_bytes [1; 2; 3; 4; 5; 6; 7; 8; 9; 10; 11; 12; 13; 14; 15; 16]
+                                                     ++ enc_bytes (enc_signed 4 (-1))))) = Err TbShardNum /\
+  tablet_payload [1; 2; 3] = Err TbDeserialization.
+Proof.
+  split.
+  { unfold wf_tablet. split; [lia|]. split; [lia|]. split; [reflexivity|]. repeat constructor; try reflexivity;
+      try (apply bytes_okb_ok; reflexivity). }
+  repeat split; vm_compute; reflexivity.
+Qed.
+(* cached metadata: two rows of one int cell under one cached column; the same body under TWO cached
+   columns is an error (the second row's cells are missing), never an out-of-bounds read *)
+Definition ex_cached_rows : rows_result :=
+  mkRows (mkRowsHdr 7 false true false None) None [] 2 [[Some [0; 0; 0; 1]]; [None]].
+Definition ex_ccol (n : N) : colspec := mkColSpec ([107], [116]) [n] (TNative Int).
+Example C08_ex_cached :
+  wf_rows_cached [ex_ccol 97] ex_cached_rows /\
+  run (deser_rows_full_cached parse_custom ex_ft (Some [9], 1, [ex_ccol 97])) (enc_rows ex_cached_rows)
+    = Ok ((mkRows (rr_hdr ex_cached_rows) (Some [9]) [ex_ccol 97] 2 [[Some [0; 0; 0; 1]]; [None]], 1), []) /\
+  run (deser_rows_full_cached parse_custom ex_ft (None, 2, [ex_ccol 97; ex_ccol 98])) (enc_rows ex_cached_rows)
+    = Err EIo /\
+  run (deser_rows_full_cached parse_custom ex_ft (None, 0, [])) (enc_rows ex_cached_rows)
+    = Ok ((mkRows (rr_hdr ex_cached_rows) None [] 2 [], 0), [0; 0; 0; 4; 0; 0; 0; 1; 255; 255; 255; 255]).
+Proof.
+  split.
+  { unfold wf_rows_cached, ex_cached_rows. cbn. repeat split; try reflexivity; try discriminate.
+    repeat constructor; try reflexivity; try (apply bytes_okb_ok; reflexivity). }
+  repeat split; vm_compute; reflexivity.
+Qed.
+Example C08_ex_typed_cell :
+  typed_cell (TNative Int) (Some [0; 0; 0; 7]) = Ok (Cql.CVal (Cql.CInt 7)) /\
+  typed_cell (TList false (TNative Int)) (Some [0; 0; 0; 1; 0; 0; 0; 4; 0; 0; 0; 9]) = Ok (Cql.CVal (Cql.CList [Cql.CInt 9])) /\
+  typed_cell (TNative Int) (Some [0; 0; 7]) = Err Cql.DE_ByteLengthMismatch /\
+  typed_row [ex_ccol 97; ex_ccol 98] [Some [0; 0; 0; 1]; None] = Ok [Cql.CVal (Cql.CInt 1); Cql.CNull].
+Proof. repeat split; vm_compute; reflexivity. Qed.
+(* the typed tuple targets of the tie: which target type-checks, where it first fails *)
+Example C08_ex_tuple_target :
+  tuple_target [ex_ccol 97] = 1 /\ tuple_target [ex_ccol 97; ex_ccol 98] = 0 /\
+  tuple_target [mkColSpec ([107], [116]) [97] (TNative BigInt); mkColSpec ([107], [116]) [98] (TNative Ascii)] = 2 /\
+  tuple_target [mkColSpec ([107], [116]) [97] (TSet false (TNative Int))] = 5 /\
+  tuple_rows_first_error 1 [ex_ccol 97] [[Some [0; 0; 0; 1]]; [None]; [Some [0; 0; 7]]] 0 = Some 2 /\
+  tuple_rows_first_error 1 [ex_ccol 97] [[Some [0; 0; 0; 1]]; [None]] 0 = None /\
+  tuple_cell_ok 2 1 (TNative Ascii) (Some [195; 169]) = false /\ tuple_cell_ok 2 1 (TNative Text) (Some [195; 169]) = true /\
+  tuple_cell_ok 4 0 (TNative Boolean) (Some [0; 1]) = false /\
+  tuple_cell_ok 5 0 (TList false (TNative Int)) (Some [0; 0; 0; 2; 0; 0; 0; 4; 0; 0; 0; 9; 255; 255; 255; 255]) = true /\
+  tuple_cell_ok 5 0 (TList false (TNative Int)) (Some [0; 0; 0; 1; 0; 0; 0; 3; 0; 0; 9]) = false.
+Proof. repeat split; vm_compute; reflexivity. Qed.
+
 Print Assumptions C08_roundtrip.
 Print Assumptions C08_truncation.
 Print Assumptions C08_truncation_body.
@@ -193,3 +298,7 @@ Print Assumptions C08_alloc.
 Print Assumptions C08_alloc_plain.
 Print Assumptions C08_depth.
 Print Assumptions C08_fuel_enough.
+Print Assumptions C08_chunking.
+Print Assumptions C08_tablet_roundtrip.
+Print Assumptions C08_cached_rows_roundtrip.
+Print Assumptions C08_typed_cell_roundtrip.
